@@ -47,6 +47,7 @@ type Engine struct {
 	inlineAll  bool
 	staticVals map[string]Val
 	contractSource string // "repo" or "mirror"
+	nameAliases map[string]map[string][]string // function key -> current name -> recorded names (pure renames)
 	lockLevels map[string]int    // lock field name -> level
 	guards     map[string]string // guarded field array prefix -> mutex field name
 	immutable  map[string][]string
